@@ -346,6 +346,10 @@ func c15Property(t *rapid.T, name string, ev *Collector, multiGet bool) {
 	actions := map[string]func(*rapid.T){
 		"batch": func(t *rapid.T) {
 			n := rapid.IntRange(1, 8).Draw(t, "nops")
+			if rapid.IntRange(0, 4).Draw(t, "bigbatch") == 0 {
+				// large batches with repeated keys: the operations of a batch apply in order
+				n = rapid.IntRange(13, 40).Draw(t, "nopsBig")
+			}
 			var ops []kvOp
 			merged, plain := map[string]bool{}, map[string]bool{}
 			for i := 0; i < n; i++ {
@@ -514,15 +518,19 @@ func c15Property(t *rapid.T, name string, ev *Collector, multiGet bool) {
 			}
 			it := r.RangeIterator([]byte{0x00}, []byte{0xff, 0xff, 0xff, 0xff})
 			var got []string
+			problem := ""
 			for ; it.Valid(); it.Next() {
 				k, v, _ := it.Current()
-				if !bytes.Equal(v, st.model[string(k)]) {
-					t.Fatalf("%s full scan: key %q value %q, model %q", name, k, v, st.model[string(k)])
+				if !bytes.Equal(v, st.model[string(k)]) && problem == "" {
+					problem = fmt.Sprintf("%s full scan: key %q value %q, model %q", name, k, v, st.model[string(k)])
 				}
 				got = append(got, string(k))
 			}
 			it.Close()
 			r.Close()
+			if problem != "" { // (reported only now: a failure with a reader open would block the store's Close)
+				t.Fatalf("%s", problem)
+			}
 			want := st.model.sortedKeys()
 			if fmt.Sprintf("%q", got) != fmt.Sprintf("%q", want) {
 				t.Fatalf("%s full scan keys %q, model %q", name, got, want)
